@@ -129,6 +129,24 @@ def forms(ctx, g):
             assert np.all(np.isfinite(phi.value))
         got = _outcome(lambda: run(_faces(g, dims)))
         ctx.fact(tag + '/faces_form', got == 'ok', 'got %s' % got)
+
+        def fv_forms():
+            # the three documented FaceVariable forms: scalar, one value per component, one array per component
+            m = cls(*_faces(g, dims))
+            shp = scen.face_shapes(dims)
+            comps = [2.0, -3.0, 5.0][:nd]
+            a = pf.FaceVariable(m, 7.0)
+            b = pf.FaceVariable(m, comps)
+            arrs = [np.full(sh, c) for sh, c in zip(shp, comps)] + [np.array([])] * (3 - nd)
+            c3 = pf.FaceVariable(m, *arrs)
+            for ax in range(nd):
+                va, vb, vc = (np.asarray(scen.fcomp(v, ax)) for v in (a, b, c3))
+                assert va.shape == tuple(shp[ax]) and vb.shape == tuple(shp[ax]) and vc.shape == tuple(shp[ax]), (ax, va.shape, vb.shape)
+                assert np.all(va == 7.0) and np.all(vb == comps[ax]) and np.all(vc == comps[ax]), ax
+            # and they are usable as coefficients
+            pf.convectionTerm(b); pf.diffusionTerm(a); pf.divergenceTerm(c3)
+        got = _outcome(fv_forms)
+        ctx.fact(tag + '/facevariable_forms', got == 'ok', 'got %s' % got)
         got = _outcome(lambda: run(list(dims) + [1.0] * nd))
         ctx.fact(tag + '/NL_form', got == 'ok', 'got %s' % got)
 
